@@ -55,6 +55,11 @@ pub enum Sel {
     /// builder L: a function the unit does not translate but declares (Lean text given by a `Raw`
     /// item): (rust key, lean name, [(param, rust type)], rust return type)
     ExternFn(&'static str, &'static str, &'static [(&'static str, &'static str)], &'static str),
+    /// builder L: register a struct whose Lean text a `Raw` item gives: (name, [(field, rust type)])
+    ExternStructRaw(&'static str, &'static [(&'static str, &'static str)]),
+    /// builder L: a statement kept abstract in the following functions: (needle in its source text,
+    /// Lean function declared by a `Raw` item, expressions it reads, variables it writes)
+    AbstractStmt(&'static str, &'static str, &'static [&'static str], &'static [&'static str]),
 }
 
 pub struct Unit {
@@ -182,7 +187,7 @@ fn translate_free_helpers(files: &[File], reg: &mut Registry, out: &mut String, 
         let found = files.iter().find_map(|f| f.items.iter().find_map(|it| if let Item::Fn(g) = it { if g.sig.ident == name { Some(g) } else { None } } else { None }));
         if let Some(g) = found {
             translate_free_helpers(files, reg, out, &g.block, &name, depth + 1)?;
-            let mut tr = FnTr { reg, self_ty: None, ret: Ty::Unit, counter: 0, fn_prefix: name.clone(), local_fns: HashMap::new(), extra_defs: vec![], muts: vec![] };
+            let mut tr = FnTr { reg, self_ty: None, ret: Ty::Unit, counter: 0, fn_prefix: name.clone(), local_fns: HashMap::new(), extra_defs: vec![], muts: vec![], tparams: HashMap::new() };
             let (text, fsig) = tr.function(&g.sig, &g.block, &name).map_err(|e| format!("helper fn {}: {}", name, e))?;
             for d in tr.extra_defs {
                 out.push_str(&d);
@@ -328,7 +333,7 @@ fn translate_unit(repo: &Path, u: &Unit, reg: &mut Registry) -> Res<String> {
                     Item::Struct(s) => s,
                     _ => unreachable!(),
                 };
-                let tr = FnTr { reg, self_ty: Some(name.to_string()), ret: Ty::Unit, counter: 0, fn_prefix: String::new(), local_fns: HashMap::new(), extra_defs: vec![], muts: vec![] };
+                let tr = FnTr { reg, self_ty: Some(name.to_string()), ret: Ty::Unit, counter: 0, fn_prefix: String::new(), local_fns: HashMap::new(), extra_defs: vec![], muts: vec![], tparams: HashMap::new() };
                 let mut fields = vec![];
                 for f in &s.fields {
                     let fname = f.ident.as_ref().ok_or("tuple struct")?.to_string();
@@ -371,7 +376,7 @@ fn translate_unit(repo: &Path, u: &Unit, reg: &mut Registry) -> Res<String> {
                     }
                 }
                 let (ty, expr) = found.ok_or(format!("const {} not found", path))?;
-                let mut tr = FnTr { reg, self_ty: tyname.map(|s| s.to_string()), ret: Ty::Unit, counter: 0, fn_prefix: String::new(), local_fns: HashMap::new(), extra_defs: vec![], muts: vec![] };
+                let mut tr = FnTr { reg, self_ty: tyname.map(|s| s.to_string()), ret: Ty::Unit, counter: 0, fn_prefix: String::new(), local_fns: HashMap::new(), extra_defs: vec![], muts: vec![], tparams: HashMap::new() };
                 let t = tr.ty(ty)?;
                 let mut st = vec![];
                 let mut env = HashMap::new();
@@ -415,7 +420,7 @@ fn translate_unit(repo: &Path, u: &Unit, reg: &mut Registry) -> Res<String> {
                 // private module-level helpers the function calls (a nested helper moved out of the
                 // function, an extracted sub-step) are translated first, without being listed
                 translate_free_helpers(&files, reg, &mut out, body, fname, 0)?;
-                let mut tr = FnTr { reg, self_ty: tyname.map(|s| s.to_string()), ret: Ty::Unit, counter: 0, fn_prefix: lean_name.clone(), local_fns: HashMap::new(), extra_defs: vec![], muts: vec![] };
+                let mut tr = FnTr { reg, self_ty: tyname.map(|s| s.to_string()), ret: Ty::Unit, counter: 0, fn_prefix: lean_name.clone(), local_fns: HashMap::new(), extra_defs: vec![], muts: vec![], tparams: HashMap::new() };
                 let (text, fsig) = tr.function(sig, body, &lean_name).map_err(|e| format!("fn {}: {}", lean_name, e))?;
                 for d in tr.extra_defs {
                     out.push_str(&d);
@@ -433,7 +438,7 @@ fn translate_unit(repo: &Path, u: &Unit, reg: &mut Registry) -> Res<String> {
                 let (sig, body) = files.iter().find_map(|f| find_from_impl(f, from, to)).ok_or(format!("From<{}> for {} not found", from, to))?;
                 let lean_name = format!("{}.into_{}", from, to);
                 reg.aliases.insert("Self".into(), match int_ty(to) { Some(i) => Ty::Int(i), None => Ty::Named(to.to_string()) });
-                let mut tr = FnTr { reg, self_ty: None, ret: Ty::Unit, counter: 0, fn_prefix: lean_name.clone(), local_fns: HashMap::new(), extra_defs: vec![], muts: vec![] };
+                let mut tr = FnTr { reg, self_ty: None, ret: Ty::Unit, counter: 0, fn_prefix: lean_name.clone(), local_fns: HashMap::new(), extra_defs: vec![], muts: vec![], tparams: HashMap::new() };
                 let r = tr.function(sig, body, &lean_name);
                 let (text, fsig) = r.map_err(|e| format!("fn {}: {}", lean_name, e))?;
                 out.push_str(&text);
@@ -453,7 +458,7 @@ fn translate_unit(repo: &Path, u: &Unit, reg: &mut Registry) -> Res<String> {
                     Item::Struct(s) => s,
                     _ => unreachable!(),
                 };
-                let tr = FnTr { reg, self_ty: Some(name.to_string()), ret: Ty::Unit, counter: 0, fn_prefix: String::new(), local_fns: HashMap::new(), extra_defs: vec![], muts: vec![] };
+                let tr = FnTr { reg, self_ty: Some(name.to_string()), ret: Ty::Unit, counter: 0, fn_prefix: String::new(), local_fns: HashMap::new(), extra_defs: vec![], muts: vec![], tparams: HashMap::new() };
                 let mut fields = vec![];
                 for f in &s.fields {
                     let fname = f.ident.as_ref().ok_or("tuple struct")?.to_string();
@@ -478,7 +483,7 @@ fn translate_unit(repo: &Path, u: &Unit, reg: &mut Registry) -> Res<String> {
                     Item::Enum(e) => e,
                     _ => unreachable!(),
                 };
-                let tr = FnTr { reg, self_ty: Some(name.to_string()), ret: Ty::Unit, counter: 0, fn_prefix: String::new(), local_fns: HashMap::new(), extra_defs: vec![], muts: vec![] };
+                let tr = FnTr { reg, self_ty: Some(name.to_string()), ret: Ty::Unit, counter: 0, fn_prefix: String::new(), local_fns: HashMap::new(), extra_defs: vec![], muts: vec![], tparams: HashMap::new() };
                 let mut units = vec![];
                 let mut datas = vec![];
                 let mut lines = vec![];
@@ -508,8 +513,20 @@ fn translate_unit(repo: &Path, u: &Unit, reg: &mut Registry) -> Res<String> {
                 reg.enums.insert(name.to_string(), units);
                 reg.enum_data.insert(name.to_string(), datas);
             }
+            Sel::AbstractStmt(needle, lean, reads, writes) => {
+                reg.abstract_stmts.push((needle.to_string(), lean.to_string(), reads.iter().map(|s| s.to_string()).collect(), writes.iter().map(|s| s.to_string()).collect()));
+            }
+            Sel::ExternStructRaw(name, fields) => {
+                let tr = FnTr { reg, self_ty: None, ret: Ty::Unit, counter: 0, fn_prefix: String::new(), local_fns: HashMap::new(), extra_defs: vec![], muts: vec![], tparams: HashMap::new() };
+                let mut fs = vec![];
+                for (n, t) in fields.iter() {
+                    let ty: Type = syn::parse_str(t).map_err(|e| format!("ExternStructRaw {}: {}", name, e))?;
+                    fs.push((n.to_string(), tr.ty(&ty)?));
+                }
+                reg.structs.insert(name.to_string(), fs);
+            }
             Sel::ExternFn(key, lean, params, ret) => {
-                let tr = FnTr { reg, self_ty: None, ret: Ty::Unit, counter: 0, fn_prefix: String::new(), local_fns: HashMap::new(), extra_defs: vec![], muts: vec![] };
+                let tr = FnTr { reg, self_ty: None, ret: Ty::Unit, counter: 0, fn_prefix: String::new(), local_fns: HashMap::new(), extra_defs: vec![], muts: vec![], tparams: HashMap::new() };
                 let mut ps = vec![];
                 for (n, t) in params.iter() {
                     let ty: Type = syn::parse_str(t).map_err(|e| format!("ExternFn {}: {}", key, e))?;
@@ -525,7 +542,7 @@ fn translate_unit(repo: &Path, u: &Unit, reg: &mut Registry) -> Res<String> {
                     Some(Item::Const(c)) => c,
                     _ => return Err(format!("const {} not found in {}", rust_name, file_names[idx])),
                 };
-                let mut tr = FnTr { reg, self_ty: None, ret: Ty::Unit, counter: 0, fn_prefix: String::new(), local_fns: HashMap::new(), extra_defs: vec![], muts: vec![] };
+                let mut tr = FnTr { reg, self_ty: None, ret: Ty::Unit, counter: 0, fn_prefix: String::new(), local_fns: HashMap::new(), extra_defs: vec![], muts: vec![], tparams: HashMap::new() };
                 let t = tr.ty(&c.ty)?;
                 let mut st = vec![];
                 let mut env = HashMap::new();
@@ -555,7 +572,7 @@ fn translate_unit(repo: &Path, u: &Unit, reg: &mut Registry) -> Res<String> {
             Sel::ExternStruct(name) => {
                 let it = find_in(&|it| matches!(it, Item::Struct(s) if s.ident == name)).ok_or(format!("struct {} not found", name))?;
                 if let Item::Struct(sct) = it {
-                    let tr = FnTr { reg, self_ty: Some(name.to_string()), ret: Ty::Unit, counter: 0, fn_prefix: String::new(), local_fns: HashMap::new(), extra_defs: vec![], muts: vec![] };
+                    let tr = FnTr { reg, self_ty: Some(name.to_string()), ret: Ty::Unit, counter: 0, fn_prefix: String::new(), local_fns: HashMap::new(), extra_defs: vec![], muts: vec![], tparams: HashMap::new() };
                     let mut fields = vec![];
                     for f in &sct.fields {
                         fields.push((f.ident.as_ref().ok_or("tuple struct")?.to_string(), tr.ty(&f.ty)?));
